@@ -131,7 +131,7 @@ def update (c : Curve) (newk : KV) (tol : Option Rat) (nodes : Option (List Rat)
       let num ← updatePoly c.kv (weighted ws pts) newk tol nodes
       let den ← updatePoly c.kv (ws.map fun w => [w]) newk tol nodes
       let ws' := den.map fun d => d.getD 0 0
-      if ws'.any (· == 0) then throw .other
+      if ws'.any (· == 0) then throw .value
       Curve.mk? newk (some (unweighted ws' num)) (some ws')
 
 /-- `Curve.knot_remove(nodes, tolerance)` -/
